@@ -132,6 +132,36 @@ pub fn rotate(n: usize, bits: u32) -> BoxedStrategy<Vec<u64>> {
 
 /// lerp / move_towards / clamp_length case: a[N] b[N] s d min max
 pub fn lmc(n: usize, bits: u32) -> BoxedStrategy<Vec<u64>> {
+    prop_oneof![94 => lmc_main(n, bits), 6 => lmc_tiny(n, bits)].boxed()
+}
+
+/// the same case layout with a first operand whose computed length is exactly zero: the zero vector (either sign of
+/// zero per lane), or non-zero components so small that their squares underflow. Lower bound 0, ordinary upper bound:
+/// the length is inside the bounds, so every clamp_length form has to return the operand itself
+fn lmc_tiny(n: usize, bits: u32) -> BoxedStrategy<Vec<u64>> {
+    let f = fmt(bits);
+    // 2^e with e far enough below emin/2 that squares (and sums of n squares) underflow to zero
+    let lo_e = if bits == 32 { -140i32 } else { -1060 };
+    let hi_e = if bits == 32 { -80i32 } else { -545 };
+    let lane = prop_oneof![
+        3 => Just(0.0f64),
+        1 => Just(-0.0f64),
+        4 => (lo_e..hi_e, 1.0f64..2.0, any::<bool>()).prop_map(|(e, m, s)| ldexp(m, e) * if s { -1.0 } else { 1.0 }),
+    ];
+    (proptest::collection::vec(lane, n), well_scaled_in(n, -3, 3, f.emax), s_param(), 0.0f64..2.0, 0.25f64..3.0)
+        .prop_map(move |(a, b, s, d, mx)| {
+            let mut w = words(bits, &a);
+            w.extend(words(bits, &b));
+            w.push(to_word(bits, s));
+            w.push(to_word(bits, d));
+            w.push(to_word(bits, 0.0));
+            w.push(to_word(bits, mx));
+            w
+        })
+        .boxed()
+}
+
+fn lmc_main(n: usize, bits: u32) -> BoxedStrategy<Vec<u64>> {
     let f = fmt(bits);
     let moderate = well_scaled_in(n, -10, 10, f.emax);
     let second = prop_oneof![
